@@ -74,6 +74,17 @@ def PKids.findAt : PKids α → Nat → List α → Option (Nat × List Nat)
   | .cons _ r, n+1, x => PKids.findAt r n x
 end
 
+mutual
+/-- the map of the terminal reached by `x` (structural version of `find_terminal`) -/
+def PT.leafAt : PT α → List α → Option (Aff α)
+  | .node _ c kids, x => if kids.allNone then some c.aff else PKids.leafAtK kids (c.aff.label x) x
+def PKids.leafAtK : PKids α → Nat → List α → Option (Aff α)
+  | .nil, _, _ => none
+  | .cons none _, 0, _ => none
+  | .cons (some t) _, 0, x => PT.leafAt t x
+  | .cons _ r, n+1, x => PKids.leafAtK r n x
+end
+
 /-- the terminal map reached by `x` -/
 def PT.termAt (t : PT α) (x : List α) : Option (Aff α) :=
   (PT.findTerminal t x).bind (fun r => (t.find? r.1).map (·.val.aff))
